@@ -144,10 +144,16 @@ def parse_kv(line):
 
 # ---- stages ------------------------------------------------------------------------------
 
-def stage_extract(ctx):
+def stage_extract(ctx, widgets=False):
     rc, out = sh([sys.executable, os.path.join(HERE, "extract.py"), "--repo", REPO,
                   "--json", os.path.join(ctx.work, "generated.json")])
     ctx.notes.append(out.strip())
+    if rc == 0 and widgets:
+        # second translator: the widget formulas of the Rust sources -> Plonk/GeneratedWidgets.lean
+        rc, out2 = sh([sys.executable, os.path.join(HERE, "rs2lean.py"), REPO,
+                       os.path.join(LEAN, "Plonk", "GeneratedWidgets.lean")])
+        ctx.notes.append(out2.strip())
+        out = out + out2
     return rc, out
 
 
@@ -236,7 +242,7 @@ def main():
     cov["checker_cmd"] = "cd lean && lake build %s && lake env lean Plonk/Audit/%s.lean" % (" ".join(mod.LEAN_TARGETS), prop)
 
     broken = None   # (stage, text)
-    rc, out = stage_extract(ctx)
+    rc, out = stage_extract(ctx, widgets="Plonk.Props.WidgetTie" in mod.LEAN_TARGETS)
     if rc != 0:
         broken = ("extract", out)
     if not broken:
